@@ -94,6 +94,16 @@ def optional_areas():
     return out
 
 
+_cc_memo = {}
+
+
+def cc_once(ctx, harness, cfg, name):
+    k = (harness, cfg, name)
+    if k not in _cc_memo:
+        _cc_memo[k] = ctx.cc(harness, cfg, name=name)
+    return _cc_memo[k]
+
+
 def gen_fixed(ctx, fn, exe, w, salt):
     """generate an op stream with a private PRNG so that every configuration sees the same ops"""
     saved = ctx.rng
@@ -138,11 +148,22 @@ def run(ctx):
     disagreements = []       # (area, cfg, kind, op, got, expected)
     total = 0
     per = {}
-    for salt, (area, harness, driver, fn, uses_bash) in enumerate(AREAS + optional_areas()):
+    areas = AREAS + optional_areas()
+    # build every library configuration, then compile every (area, configuration) harness in parallel
+    from concurrent.futures import ThreadPoolExecutor
+    for cfg in c64 + c32 + cbash:
+        ctx.build_lib(cfg)
+    jobs = []
+    for area, harness, driver, fn, uses_bash in areas:
+        for cfg in c64 + c32 + (cbash if uses_bash else []):
+            jobs.append((harness, cfg, "%s-%s" % (area, cfg)))
+    with ThreadPoolExecutor(max_workers=8) as ex:
+        list(ex.map(lambda j: cc_once(ctx, j[0], j[1], j[2]), jobs))
+    for salt, (area, harness, driver, fn, uses_bash) in enumerate(areas):
         have_driver = os.path.exists(ctx.driver(driver))
         refs = {}
         for w, cfgs, refcfg in ((64, c64 + (cbash if uses_bash else []), "asan"), (32, c32, "w32")):
-            refexe = ctx.cc(harness, refcfg, name="%s-%s" % (area, refcfg))
+            refexe = cc_once(ctx, harness, refcfg, "%s-%s" % (area, refcfg))
             ops = gen_fixed(ctx, fn, refexe, w, salt * 10 + (w == 32))
             cap = QUICK_CAP if ctx.tier == "quick" else THOROUGH_CAP
             if len(ops) > cap:
@@ -163,7 +184,7 @@ def run(ctx):
             for cfg in cfgs:
                 if cfg == refcfg:
                     continue
-                exe = ctx.cc(harness, cfg, name="%s-%s" % (area, cfg))
+                exe = cc_once(ctx, harness, cfg, "%s-%s" % (area, cfg))
                 use = ops
                 if cfg in cbash:
                     use = [o for o in ops if o.split()[0] in ("bashf", "hash", "prg")] if ctx.tier == "quick" else ops
@@ -184,7 +205,7 @@ def run(ctx):
         # across word sizes: the 64-bit stream replayed on the 32-bit-word library
         if 64 in refs and 32 in refs and area not in NO_CROSS:
             ops64, ref64 = refs[64]
-            exe32 = ctx.cc(harness, "w32", name="%s-w32" % area)
+            exe32 = cc_once(ctx, harness, "w32", "%s-w32" % area)
             out32, err, rc = ctx.run_lines(exe32, ops64)
             total += len(ops64)
             wordspec = {}
